@@ -191,7 +191,8 @@ def check_tables(ctx):
     # '+' means space only in the *raw* query text: it is translated before percent-decoding, so that an escaped
     # '%2B' survives as a literal '+'
     n_plus = 0
-    for n in ast.walk(parse_qsl.node):
+    from rules.common import with_helpers as _wh
+    for n in [x for f_ in _wh(prog, parse_qsl) for x in ast.walk(f_.node)]:
         if isinstance(n, ast.Call) and isinstance(n.func, ast.Attribute) and n.func.attr == 'replace' and n.args and \
                 isinstance(n.args[0], ast.Constant) and n.args[0].value == '+':
             n_plus += 1
